@@ -168,6 +168,7 @@ func TestProp_LimitIsExact(t *testing.T) {
 		c := genCase(rt)
 		var mu sync.Mutex
 		var ids []uint64
+		var kept []string // the id strings as the scenario saw them, kept beyond the iteration (map keys, logs)
 		var bad []string
 		var invocations atomic.Uint64
 		scenario := func(st *f1testing.T) f1testing.RunFn {
@@ -191,6 +192,7 @@ func TestProp_LimitIsExact(t *testing.T) {
 					bad = append(bad, it.Iteration)
 				}
 				ids = append(ids, id)
+				kept = append(kept, first)
 				mu.Unlock()
 				if c.BodyUs > 0 {
 					time.Sleep(time.Duration(c.BodyUs) * time.Microsecond)
@@ -225,6 +227,12 @@ func TestProp_LimitIsExact(t *testing.T) {
 		elapsed := time.Since(start)
 		mu.Lock()
 		got := append([]uint64{}, ids...)
+		// an id a scenario has kept stays what it was: it does not change when the worker moves on
+		for i, s := range kept {
+			if want := strconv.FormatUint(ids[i], 10); s != want && len(bad) < 5 {
+				bad = append(bad, fmt.Sprintf("the id string kept from iteration %s reads %q after the run", want, s))
+			}
+		}
 		mu.Unlock()
 		sort.Slice(got, func(i, j int) bool { return got[i] < got[j] })
 		inv := invocations.Load()
